@@ -33,9 +33,9 @@ class Exact(Suite):
             cases.append({"s": p_scheme(rng), "D": cyclic_dataset(rng, 5 if tier == "quick" else 6)})
         for _ in range(50 if tier == "quick" else 700):
             cases.append({"s": rng.choice([gen.UNIFYING, gen.UNIFYING, gen.EXTENDED, gen.UNIFYING_HALF, gen.GENERIC]),
-                          "D": sparse_component_dataset(rng, 5 if tier == "quick" else 7)})
+                          "D": sparse_component_dataset(rng, 5 if tier == "quick" else 6)})
         for _ in range(100 if tier == "quick" else 1500):
-            nmax = rng.choice([4, 5, 6, 6]) if tier == "quick" else rng.choice([5, 6, 7, 7])
+            nmax = rng.choice([4, 5, 6, 6]) if tier == "quick" else rng.choice([5, 6, 6, 6])
             cases.append({"s": opt_scheme(rng), "D": layered_dataset(rng, nmax, 5) if rng.random() < 0.5 else gen.random_dataset(rng, nmax, 5)})
         return cases
 
@@ -284,6 +284,6 @@ class Cplex(Suite):
 if __name__ == "__main__":
     main("C05", [Exact(), Ilp(), Cplex()],
          level_note="see MANIFEST",
-         rule="witnesses of F1 / F2 / F6; 3-ranking datasets over {0,1,2}; layered and random datasets up to 6 (7) elements, schemes biased to "
+         rule="witnesses of F1 / F2 / F6; 3-ranking datasets over {0,1,2}; layered and random datasets up to 6 elements, schemes biased to "
               "B5 != T5; four configurations per dataset (selector optimize on/off, free-solver model one / all); the optimum is recomputed "
               "in Coq by the verified brute force. non-trivial = >= 3 elements")
